@@ -29,8 +29,8 @@ ASSUMPTIONS = [
     "the voxel corners (global_corners_voxels) are the authoritative advertisement; physical corners must be their image under the base coordinate system",
 ]
 FLOORS = {
-    "quick": {"base_converted_before_patching": 400, "patched_again_after_move": 400, "assemble_equals_base": 1500, "interiors_partition": 1500, "patch_is_advertised_subimage": 12000, "corners_voxel_vs_physical": 12000},
-    "thorough": {"base_converted_before_patching": 4000, "patched_again_after_move": 4000, "assemble_equals_base": 15000, "interiors_partition": 15000, "patch_is_advertised_subimage": 100000, "corners_voxel_vs_physical": 50000},
+    "quick": {"patch_content_replaced": 150, "base_converted_before_patching": 400, "patched_again_after_move": 400, "assemble_equals_base": 1500, "interiors_partition": 1500, "patch_is_advertised_subimage": 12000, "corners_voxel_vs_physical": 12000},
+    "thorough": {"patch_content_replaced": 1500, "base_converted_before_patching": 4000, "patched_again_after_move": 4000, "assemble_equals_base": 15000, "interiors_partition": 15000, "patch_is_advertised_subimage": 100000, "corners_voxel_vs_physical": 50000},
 }
 OVERLAPS = [0.0, 0.1, 0.25, 0.5]
 
@@ -166,7 +166,8 @@ def run_shard(spec, R):
         return True
 
     def post_assemble(self, result):
-        R.check(np.array_equal(result.img, self.base.img) and result.img.dtype == self.base.img.dtype and type(result) is type(self.base),
+        want = self.base.img if ASSEMBLE_EXPECT.get("exp") is None else ASSEMBLE_EXPECT["exp"]
+        R.check(np.array_equal(result.img, want) and result.img.dtype == self.base.img.dtype and type(result) is type(self.base),
                 "assemble_equals_base", dict(cur), group=f"{cur.get('shape')}/{cur.get('counts')}")
         return True
 
@@ -198,6 +199,7 @@ def run_shard(spec, R):
 
 
 LIVE = {}
+ASSEMBLE_EXPECT = {}
 
 
 def _one(R, darsia, rng, cur, shape, cnt, ov, case_no):
@@ -244,6 +246,34 @@ def _one(R, darsia, rng, cur, shape, cnt, ov, case_no):
                 R.check(list(P.num_patches) == list(cnt), "patch_counts_kept", {**cur, "num_patches_after_caller_changed_its_list": list(P.num_patches)})
                 R.guarded("assemble", lambda: P.assemble())
             R.check(np.array_equal(base.img, arr), "base_unchanged", dict(cur))
+            # one patch gets new content (set_image): re-assembly is the base image with that patch's interior replaced;
+            # the base image itself and the other patches keep their content
+            if case_no % 5 == 2:
+                pi_, pj_ = int(rng.integers(0, cnt[0])), int(rng.integers(0, cnt[1]))
+                tgt = P.patches[pi_][pj_]
+                if tgt.img.size:
+                    newc = rng.integers(0, 255, size=tgt.img.shape).astype(tgt.img.dtype)
+                    gcn = np.asarray(P.global_corners_voxels[pi_, pj_])
+                    rel = P.relative_rois_without_overlap[pi_][pj_] if hasattr(P, "relative_rois_without_overlap") else None
+                    others_before = [[P.patches[a_][b_].img.copy() for b_ in range(cnt[1])] for a_ in range(cnt[0])]
+                    cur_keep = dict(cur)
+                    cur["what"] = "after set_image on one patch"
+                    ASSEMBLE_EXPECT["exp"] = None
+                    okp, _ = R.guarded("set_image", lambda: P.set_image(newc, pi_, pj_))
+                    if okp and rel is not None:
+                        exp_asm = base.img.copy()
+                        box_ = (slice(gcn[0][0], gcn[1][0]), slice(gcn[0][1], gcn[3][1]))
+                        exp_asm[box_] = newc[rel]
+                        ASSEMBLE_EXPECT["exp"] = exp_asm
+                        with contextlib.redirect_stdout(io.StringIO()):
+                            R.guarded("assemble", lambda: P.assemble())
+                        ASSEMBLE_EXPECT["exp"] = None
+                        same_others = all(np.array_equal(P.patches[a_][b_].img, others_before[a_][b_]) for a_ in range(cnt[0]) for b_ in range(cnt[1]) if (a_, b_) != (pi_, pj_))
+                        R.check(np.array_equal(base.img, arr) and same_others, "set_image_is_local", {**cur, "patch": [pi_, pj_]})
+                        R.count("patch_content_replaced")
+                        P.set_image(others_before[pi_][pj_], pi_, pj_)
+                    cur.clear()
+                    cur.update(cur_keep)
             # two live Patches objects: the previous case's object is assembled again now that another one exists
             if LIVE.get("prev") is not None and case_no % 4 == 0:
                 keep = dict(cur)
